@@ -29,10 +29,12 @@ from .common import MachineryError, NonFinite, Regenerate, order_seq, red_frac
 F0, F1 = Fraction(0), Fraction(1)
 
 
-def make_instance(rng, herm=True, max_order=3):
+def make_instance(rng, herm=True, max_order=3, interleaved=False):
     nexp_blocks = rng.choice([1, 1, 2])
     exp_sizes = [rng.choice([1, 2]) for _ in range(nexp_blocks)]
-    if nexp_blocks == 1 and rng.random() < 0.6:
+    if interleaved:
+        nexp_blocks, exp_sizes = 1, [3]
+    elif nexp_blocks == 1 and rng.random() < 0.6:
         exp_sizes = [rng.choice([2, 3, 3])]      # room for several levels inside the explicit block
     dB = rng.choice([2, 3, 4])
     d = sum(exp_sizes) + dB
@@ -61,11 +63,13 @@ def make_instance(rng, herm=True, max_order=3):
     E = []
     for b, sz in enumerate(exp_sizes):
         E += [exp_levels[b]] * sz
-    if nexp_blocks == 1 and exp_sizes[0] >= 2 and rng.random() < 0.75:
+    if nexp_blocks == 1 and exp_sizes[0] >= 2 and (interleaved or rng.random() < 0.75):
         # several levels inside ONE explicit block, supplied in arbitrary (not ascending) order and with
         # degenerate partners that are not neighbours: (2s, 0), (2s, 0, 2s), (0, 2s, 0), ...
         # (the gap 2s inside the block is dyadic too, so the block may also be fully diagonalised)
         pats = {2: [(1, 0), (0, 1), (1, 0)], 3: [(1, 0, 1), (0, 1, 0), (1, 1, 0), (1, 0, 0), (0, 1, 1)]}[exp_sizes[0]]
+        if interleaved:
+            pats = [(1, 0, 1), (1, 0, 0), (1, 1, 0)]     # not ascending; the first with interleaved partners
         E = [exp_levels[q] for q in rng.choice(pats)]
     E += [rng.choice(imp_levels) for _ in range(dB)]
     inst["E"] = E
@@ -189,7 +193,8 @@ def _job(args):
     for _ in range(30):
         try:
             # KPM outputs are snapped to a 2^-16 grid: keep the true denominators well below it
-            inst = make_instance(rng, herm=not mode.get("nonhermitian"), max_order=2 if mode["solver"] == "kpm" else 3)
+            inst = make_instance(rng, herm=not mode.get("nonhermitian"), max_order=2 if mode["solver"] == "kpm" else 3,
+                                 interleaved=bool(mode.get("interleaved")))
             twin_sess = hermitian.make_session(inst, idx + 1, p, spectrum=spectrum)
             A = dict(d=inst["d"], ords=twin_sess["ords"], out=twin_sess["out"])
             B, T, Ti = run_implicit(inst, p, mode)
@@ -203,6 +208,34 @@ def _job(args):
         except Exception as e:  # noqa: BLE001
             return ("crash", idx, f"{type(e).__name__}: {e}\n{traceback.format_exc(limit=6)}", None, dict(mode=mode))
     return ("skip", idx, "no instance", None, dict(mode=mode))
+
+
+def related_stage(seed, base, p, prop, modes, n):
+    """Implicit-mode stage for the checks of OTHER properties (C05, C15): the implicit run of a problem must equal,
+    under the embedding of the complete basis, the run of its complete-basis twin -- for explicit vectors listed
+    in any order inside a subspace, (R, L) pairs, dense / sparse terms.  Returns (violations, summary)."""
+    from . import core_relations
+
+    jobs = [(seed, base + i, p, modes[i % len(modes)], 0, prop) for i in range(n)]
+    with mp.get_context("fork").Pool(16) as pool:
+        items = pool.map(_job, jobs, chunksize=1)
+    violations, rels, metas = [], [], {}
+    for it in items:
+        if it[0] == "ok":
+            rels.append(it[2])
+            metas[it[2]["sid"]] = it[4]
+        elif it[0] in ("bad_value", "crash"):
+            violations.append(dict(kind="implicit_" + it[0], detail=it[2][:500], **it[4]))
+    summary = dict(pairs=len(rels), of=n, states=0, transitions=0,
+                   rule="implicit run (explicit vectors in arbitrary listing order, (R, L) pairs in non-Hermitian "
+                        "mode) vs the run of the complete-basis twin, equal under the embedding")
+    if rels:
+        r, done, fails = core_relations.validate(rels, p)
+        summary["states"], summary["transitions"] = r.distinct, r.generated
+        for sid, f in fails.items():
+            violations.append(dict(kind="implicit_run_differs_from_complete_basis_twin",
+                                   clauses=sorted(set(f))[:10], **metas[sid]))
+    return violations, summary
 
 
 MODES = [dict(solver="direct"), dict(solver="direct", sparse_terms=True), dict(solver="direct_opts"),
